@@ -100,18 +100,18 @@ def build_programs(run):
         items.append((p, both if not quick else [both[(i // stride) % 2]], i % 5 == 0, i % 3 == 0))
     info['unusual_forms'] = {'space': len(ex), 'stride': stride, 'offset': off, 'exhaustive': stride == 1}
     # 2. random unusual programs under ALL 16 configurations
-    n_un = 64 if quick else 400
+    n_un = 64 if quick else 320
     for i, p in enumerate(c17_gen.unusual_programs(rng, n_un)):
         items.append((p, cfgs, True, i % 2 == 0))
     # 3. control-flow skeletons + typed random programs (the shared C01 class), rotating configurations
     skinfo = {}
-    sk = list(progen.skeleton_programs(4 if quick else 5, 3, cap=120 if quick else 700, rng=rng, info=skinfo))
+    sk = list(progen.skeleton_programs(4 if quick else 5, 3, cap=120 if quick else 600, rng=rng, info=skinfo))
     info['skeletons'] = skinfo
     for i, p in enumerate(sk):
         k = 2 if quick else 4
         cs = [cfgs[(i * 5 + j * 7) % 16] for j in range(k)]
         items.append((p, cs, i % 4 == 0, i % 4 == 0))
-    rp = list(progen.random_programs(rng, 40 if quick else 250, size=14))
+    rp = list(progen.random_programs(rng, 40 if quick else 200, size=14))
     for i, p in enumerate(rp):
         cs = [cfgs[(i * 3 + j * 5) % 16] for j in range(4 if quick else 8)]
         items.append((p, cs, i % 3 == 0, i % 3 == 0))
